@@ -19,7 +19,10 @@ impl<'a> Iterator for Lines<'a> {
         let line = self.lines.next()?;
 
         if line.starts_with(tags::VariantStream::PREFIX_EXTXSTREAMINF) {
-            let uri = self.lines.next()?;
+            let uri = match self.lines.next() {
+                Some(uri) => uri,
+                None => return Some(Err(Error::missing_value("URI"))),
+            };
 
             Some(
                 tags::VariantStream::try_from(format!("{}\n{}", line, uri).as_str())
